@@ -40,7 +40,7 @@ CHECKS = {
              "(the three numeric kinds are accepted without any call, everything else is one IncorrectValueKind); integers -> f64 / f32 are the IEEE conversion: exact up to 53 / 24 significant bits "
              "(c05_f64_of_int_exact, c05_f32_of_int_exact), otherwise q * 2^(size-53) with q the nearest integer to m / 2^(size-53), ties to even, carry into the exponent "
              "(c05_f64_of_int_rounded, c05_f32_of_int_rounded, c05_round_even_nearest), sign bit for negatives (c05_float_of_negative); f64 -> f32 of a finite normal f64 whose result is normal or overflows (c05_f32_of_f64_normal, c05_f32_of_f64_unfold) - all in "
-             "integer arithmetic, no reals. Partial: f64 -> f32 results in the f32 subnormal range, NaN canonicalisation and infinities have no theorem (bit-exact three-way comparison "
+             "integer arithmetic, no reals. f64 -> f32 with a result in the f32 subnormal range (c05_f32_of_f64_subnormal). Partial: subnormal f64 inputs, NaN canonicalisation and infinities have no theorem (bit-exact three-way comparison "
              "implementation / Fround / Flocq binary_normalize on every run). "
              "usize = 64 bits assumed."),
     "C13": dict(
